@@ -267,7 +267,9 @@ class _FalconShim:
 
 DATA = b'0123456789'
 MTIME = 1000000000  # 2001-09-09T01:46:40Z
-IMS = [None, 'Sun, 09 Sep 2001 01:46:39 GMT', 'Sun, 09 Sep 2001 01:46:40 GMT', 'Sun, 09 Sep 2001 01:46:41 GMT', 'garbage']
+IMS = [None, 'Sun, 09 Sep 2001 01:46:39 GMT', 'Sun, 09 Sep 2001 01:46:40 GMT', 'Sun, 09 Sep 2001 01:46:41 GMT', 'garbage',
+       'Fri, 01 Jan 2100 00:00:00 GMT']     # the last: ahead of any server clock -- still "not modified since"
+
 
 
 def chain_case(size, unit_ok, first, last, ims, rs1, rs2, asgi=False):
@@ -319,7 +321,7 @@ def chain_case(size, unit_ok, first, last, ims, rs1, rs2, asgi=False):
         if err is None or err.status_code != 400:
             return fail(lambda: 'If-Modified-Since garbage: expected 400, got %r' % (err or resp.status,))
         return 1
-    not_modified = ims in (2, 3)   # If-Modified-Since >= mtime
+    not_modified = ims in (2, 3, 5)   # If-Modified-Since >= mtime
     if not_modified:
         if err is not None or resp.status_code != 304 or resp.stream is not None:
             return fail(lambda: 'If-Modified-Since %r: expected 304 without body, got %r / %r' % (IMS[ims], err, resp.status))
@@ -430,7 +432,7 @@ def partitions(tier, seed):
         P.append(_part('chain_size%d_ims' % size, 'last: str, ims: int, rs1: int, rs2: int',
                        ['len(last) <= 1', '0 <= ims < %d' % len(IMS), 'rs1 >= -1 and rs2 >= -1'],
                        "chain_case(%d, True, '', last, ims, rs1, rs2)" % size, 200 if q else 600,
-                       'If-Modified-Since from a menu (absent, mtime-1s, mtime, mtime+1s, garbage) with no Range or bytes=-S on a %d-byte file: '
+                       'If-Modified-Since from a menu (absent, mtime-1s, mtime, mtime+1s, garbage, year 2100) with no Range or bytes=-S on a %d-byte file: '
                        '304 without body / 200 / 400; two server read sizes any int >= -1' % size))
     if not q:
         P.append(_part('chain_size10_FL2', 'first: str, last: str, unit_ok: bool, ims: int, rs1: int, rs2: int',
